@@ -243,6 +243,22 @@ class Explorer:
             if isinstance(n, ast.NamedExpr):
                 # the binding itself is done by _bind_walrus before; the expression reads as its value
                 return rb(n.value, shadow)
+            if isinstance(n, ast.Call) and isinstance(n.func, ast.Name) and n.func.id in ("any", "all") and len(n.args) == 1 and not n.keywords and isinstance(n.args[0], (ast.GeneratorExp, ast.ListComp)) and len(n.args[0].generators) == 1 and not n.args[0].generators[0].ifs and n.func.id not in store:
+                # any(f(x) for x in it)  ->  any(f(ELEM(it))): "for some / every element", the element standing for the loop variable
+                comp = n.args[0]
+                g = comp.generators[0]
+                if self.literal_items(rb(g.iter, shadow), self._stack[-1]) is None if self._stack else True:
+                    tmp = _State()
+                    tmp.store = dict(store)
+                    tmp.repl = repl
+                    tmp.known, tmp.conds, tmp.loops = st.known, st.conds, st.loops
+                    it = rb(g.iter, shadow)
+                    fi_ = self._stack[-1] if self._stack else None
+                    if fi_ is not None:
+                        self._bind(g.target, ast.Call(func=ast.Name(id=ELEM, ctx=ast.Load()), args=[it], keywords=[]), tmp, fi_, 0, g)
+                        new = copy.copy(n)
+                        new.args = [self.subst(comp.elt, tmp, shadow)]
+                        return new
             if isinstance(n, (ast.ListComp, ast.SetComp, ast.GeneratorExp, ast.DictComp)):
                 exp = self._expand_comprehension(n, st, shadow, rb)
                 if exp is not None:
